@@ -30,7 +30,6 @@ package curves
 //@   ensures c.Value == value
 //@   modifies c.Value
 
-
 //@ pure linRamp(avg float64, minT float64, maxT float64) int = avg >= maxT ? 255 : (avg <= minT ? 0 : int(((avg - minT) / (maxT - minT)) * 255.0))
 
 //@ func (*LinearSpeedCurve).Evaluate
